@@ -138,6 +138,28 @@ def streams(ctx):
                           "tag": (ad, status, "ok" if isinstance(adv, set) else str(adv)[:6], len(adv) if isinstance(adv, set) else -1),
                           "ad": ad, "name": name, "status": status, "adv": adv, "atags": atags})
 
+    # a failing reply at EVERY position of a chain of pages (also the last one), every error status: the answer is that error,
+    # never the pages read so far; and the same chains without a failure: everything on every page
+    for npages in (1, 2, 3):
+        for fail_at in [None] + list(range(npages)):
+            for st_fail in ((200,) if fail_at is None else (404, 429, 500, 503)):
+                first = {f"1.{npages}.{j}" for j in range(2)}
+                body = json.dumps([{"tag_name": v, "published_at": None} for v in sorted(first)])
+                headers = 'Link: <{BASE}/repos/x/releases?page=2>; rel="next"\r\n'
+                extra, allv = [], set(first)
+                for pi in range(npages):
+                    vs = [f"0.{pi + 1}.{j}" for j in range(2)]
+                    st2 = st_fail if pi == fail_at else 200
+                    last = pi == npages - 1
+                    hd2 = "" if last else f'Link: <{{BASE}}/repos/x/releases?page={pi + 1}>; rel="prev", <{{BASE}}/repos/x/releases?page={pi + 3}>; rel="next"\r\n'
+                    extra += [str(st2), hd2, json.dumps([{"tag_name": v, "published_at": None} for v in vs])]
+                    if st2 != 200:
+                        allv = ("pagefail", st2); break
+                    allv |= set(vs)
+                cases.append({"req": vlib.line("http.fetch", "github", "x/y", str(1 + len(extra) // 3), "200", headers, body, *extra),
+                              "tag": ("github", 200, "chain", npages, fail_at, st_fail), "ad": "github", "name": "x/y", "status": 200,
+                              "adv": ("paged", first, allv), "atags": {}})
+
     # the page bound: 21 chained pages of one release each
     wextra = []
     for pi in range(21):
